@@ -152,7 +152,8 @@ func genCmdRaceCase(rnd *rand.Rand, id int) *Case {
 			}
 			return Stmt{K: "cmd", Elems: el}
 		default:
-			w := [][2]int{{0, 1}, {1, 16}, {1, 4}, {1, 8}, {3, 8}}[rnd.Intn(5)] // dyadic fractions of a second
+			// dyadic fractions of a second, some of them not a whole number of milliseconds (1/256 s = 3.90625 ms)
+			w := [][2]int{{0, 1}, {1, 16}, {1, 4}, {1, 8}, {3, 8}, {1, 256}, {3, 256}, {5, 128}, {1, 128}}[rnd.Intn(9)]
 			return Stmt{K: "cmd", Elems: []*Expr{eStr("wait"), eNum(w[0], w[1])}}
 		}
 	}
@@ -219,7 +220,8 @@ func driveCmdRace(ci int, c *Case, rnd *rand.Rand) []recEvent {
 		return append(evs, recEvent{Ev: "loadfail", ID: c.ID, Ok: &f, Var: "registration refused: " + err.Error()})
 	}
 	caseStart := time.Now()
-	ms := func(t time.Time) int { return int(t.Sub(caseStart) / time.Millisecond) }
+	// microseconds since the start of the case (a case lasts a few seconds at most: fits in 31 bits)
+	ms := func(t time.Time) int { return int(t.Sub(caseStart) / time.Microsecond) }
 	const (
 		kUnknown = iota // a host handler was dispatched but has not been entered yet
 		kHandler        // a gated host handler is running
@@ -266,7 +268,9 @@ func driveCmdRace(ci int, c *Case, rnd *rand.Rand) []recEvent {
 			}
 			released = true
 		}
-		if pending {
+		if pending && !(kind == kWait && time.Since(dispatchAt) < 12*time.Millisecond) {
+			// (a wait is polled in a tight loop for its first 12 ms, so that short waits are timed to
+			// within microseconds; the polls of that loop are not all recorded, see below)
 			time.Sleep(time.Duration(1+rnd.Intn(6)) * time.Millisecond)
 		}
 		if waiting {
@@ -292,6 +296,9 @@ func driveCmdRace(ci int, c *Case, rnd *rand.Rand) []recEvent {
 			obs.Ccalls = calls
 		case k == "waiting": // a poll answered before completion was visible
 			polls++
+			if kind == kWait && polls > 4 && len(calls) == 0 && len(obs.Writes) == 0 && len(obs.Fcalls) == 0 {
+				continue // tight polling of a wait: only the first polls are recorded as events
+			}
 			// a handler that the bridge runs in its own goroutine may log its invocation only
 			// after the dispatching call has returned: the invocation belongs to that call
 			if len(calls) > 0 && dispatchIdx >= 0 && len(evs[dispatchIdx].Obs.Ccalls) == 0 {
